@@ -92,6 +92,7 @@ struct Outcome {
     buffer: String,
     int_cones: Vec<SupportedConeT<f64>>,
     wall_s: f64,
+    setup_s: f64,
     n_int: usize,
     m_int: usize,
     nnzP: usize,
@@ -132,7 +133,9 @@ fn run(p: &Prob, cfg: &Cfg, target: Target, scratch: &str) -> RunResult {
     let cfg2 = cfg.clone();
     let scratch = scratch.to_string();
     std::thread::spawn(move || {
+        let tb = std::time::Instant::now();
         let built = guarded(|| DefaultSolver::new(&p2.P, &p2.q, &p2.A, &p2.b, &p2.cones, cfg2.settings()));
+        let setup_s = tb.elapsed().as_secs_f64();
         let mut solver = match built {
             Some(s) => s,
             None => {
@@ -195,6 +198,7 @@ fn run(p: &Prob, cfg: &Cfg, target: Target, scratch: &str) -> RunResult {
             removed: clarabel::verif_hooks::presolver_dims(&solver.data).map(|(mf, mr, _)| mf - mr),
             int_cones: solver.data.cones.clone(),
             wall_s,
+            setup_s,
         };
         let _ = tx.send(RunResult::Done(Box::new(out)));
     });
@@ -655,16 +659,26 @@ fn main() {
             for verbose in [true, false] {
                 let mut unlimited = Cfg::default();
                 unlimited.verbose = verbose;
-                let full = match run(&p, &unlimited, Target::Buffer, &scratch) { RunResult::Done(o) => o, _ => continue };
+                // fastest of three unlimited runs: (set-up time, solve time) as this harness measures them
+                let mut best: Option<Outcome> = None;
+                for _ in 0..3 {
+                    if let RunResult::Done(o) = run(&p, &unlimited, Target::Buffer, &scratch) {
+                        if best.as_ref().map(|b| o.setup_s + o.wall_s < b.setup_s + b.wall_s).unwrap_or(true) { best = Some(*o); }
+                    }
+                }
+                let full = match best { Some(o) => o, None => continue };
                 let mut c = Cfg::default();
                 c.verbose = verbose;
-                // a limit the setup alone does not exhaust but the iterations do: a quarter of the
-                // unlimited wall time (the clock the solver reads includes set-up time)
-                c.time_limit = (full.wall_s * 0.25).max(1e-6);
+                // a limit that set-up alone does not exhaust but the iterations do (the clock the
+                // solver reads includes its set-up time)
+                c.time_limit = 1.2 * full.setup_s + 0.2 * full.wall_s;
                 if let RunResult::Done(o) = run(&p, &c, Target::Buffer, &scratch) {
-                    let ok = o.status == 8 || (full.status != 1);
-                    sink.record(json!({"direct": {"prop": "C04", "ok": ok, "what": format!("a solve that needs longer than time_limit stops with MaxTime (verbose = {})", verbose),
-                        "input": {"label": p.label, "settings": c.json(), "unlimited_wall_s": full.wall_s, "unlimited_iterations": full.iterations, "status": o.status, "iterations": o.iterations}}}));
+                    // MaxTime, or the run really did finish within the limit by this harness's clock
+                    let finished_in_time = o.setup_s + o.wall_s <= c.time_limit;
+                    let ok = o.status == 8 || finished_in_time || full.status != 1;
+                    sink.record(json!({"direct": {"prop": "C04", "ok": ok, "what": format!("a solve that runs past time_limit stops with MaxTime (verbose = {})", verbose),
+                        "input": {"label": p.label, "settings": c.json(), "unlimited_setup_s": full.setup_s, "unlimited_solve_s": full.wall_s, "unlimited_iterations": full.iterations,
+                                  "status": o.status, "iterations": o.iterations, "this_run_total_s": o.setup_s + o.wall_s}}}));
                 }
             }
         }
